@@ -755,7 +755,8 @@ Lemma proxy_table_facts :
   forallb (fun pe => match pe_fallback pe with FbTrue | FbOther => false | _ => true end) proxy_table = true /\
   entry_unbound_spec entry_bool = OFallback FbFalse /\ entry_unbound_spec entry_repr = OFallback FbUnboundRepr /\
   entry_unbound_spec entry_getattr = ORuntimeError /\ entry_unbound_spec entry_setattr = ORuntimeError /\
-  60 <= length proxy_table.
+  60 <= length proxy_table /\
+  iop_result = RetInstance /\ 13 <= length (filter pe_iop proxy_table).
 Proof. vm_compute. repeat split; repeat constructor. Qed.
 
 (* non-vacuity of the request-end, snapshot and every-operation statements *)
